@@ -164,7 +164,8 @@ def opRun : P (List String) := do
   let script ← flts
   let aff ← flts
   let vshape ← optNat 0
-  let _lprior ← optNat 0   -- prior contents of the caller's label container: the result does not depend on them
+  let _lprior ← optNat 0
+  let _ushape ← optNat 0   -- shape of the caller's out-membership container (N*K elements): the result does not depend on it   -- prior contents of the caller's label container: the result does not depend on them
   let N := numVertices rc.starts rc.ends
   let (vr, vc) : Nat × Nat := match vshape with
     | 1 => (K, N) | 2 => (N * K, 1) | 3 => (0, 0) | 4 => (N + 1, K) | _ => (N, K)
